@@ -123,6 +123,20 @@ class Broken(Message):
         self.append_avp(a)
 
 
+def broken_typed():
+    """an unencodable message of a typed command class (a value outside its AVP type's domain): also reading its `avps`
+    raises; an instance of `Broken` for the harness"""
+    from diameter.message.commands import DeviceWatchdogRequest
+
+    class BrokenTyped(DeviceWatchdogRequest, Broken):
+        def __init__(self):
+            DeviceWatchdogRequest.__init__(self)
+            self.origin_host = b"node.local"
+            self.origin_realm = b"realm.local"
+            self.origin_state_id = 2 ** 40
+    return BrokenTyped()
+
+
 def make_message(i: int, size: int = 0) -> Message:
     m = Message.from_bytes(simmod.build_msg(nodegen.dwr(7000 + i, 8000 + i, "node.local")))
     if size:
@@ -132,14 +146,16 @@ def make_message(i: int, size: int = 0) -> Message:
     return m
 
 
-_cache: dict = {}
+_caches: dict = {False: {}, True: {}}
+FINE = False        # search mode: `buf += f()` lines have a second scheduling point between the load of buf and the call
 
 
 def steppers():
     """generator versions of the two methods, compiled once per process from the current source"""
+    _cache = _caches[FINE]
     if not _cache:
-        _cache["w"] = linesched.stepper(peer_mod.PeerConnection.work_write_queue, "PeerConnection")
-        _cache["l"] = linesched.stepper(node_mod.Node._handle_connections, "Node")
+        _cache["w"] = linesched.stepper(peer_mod.PeerConnection.work_write_queue, "PeerConnection", split_aug=FINE)
+        _cache["l"] = linesched.stepper(node_mod.Node._handle_connections, "Node", split_aug=FINE)
         _cache["wk"] = line_kinds(peer_mod.PeerConnection.work_write_queue, classify_writer)
         _cache["lk"] = line_kinds(node_mod.Node._handle_connections, classify_loop, _is_write_loop)
         _cache["sel"] = select_line(node_mod.Node._handle_connections)
